@@ -106,6 +106,9 @@ struct Cmd {
 struct Scenario {
   size_t size = 1, cap = 200, nlocks = 0, nqueues = 0, nctr = 0;
   std::vector< std::pair< long, long > > deps; // -1 = null
+  bool hydro = false;                              // H section present
+  std::vector< std::vector< size_t > > children;
+  std::vector< size_t > queue_of;
   std::vector< std::vector< Cmd > > progs;
   std::string mode, arg;
 };
@@ -128,9 +131,32 @@ static bool parse(const std::vector< std::string > &w, Scenario &sc) {
   sc.nlocks = u64(hd[3]);
   sc.nqueues = u64(hd[4]);
   sc.nctr = u64(hd[5]);
-  for (size_t i = 7; i + 1 < hd.size(); i += 2) {
+  size_t hpos = hd.size();
+  for (size_t i = 7; i < hd.size(); ++i)
+    if (hd[i] == "H") {
+      hpos = i;
+      break;
+    }
+  for (size_t i = 7; i + 1 < hpos; i += 2) {
     auto f = [](const std::string &s) { return s == "-" ? -1L : (long)u64(s); };
     sc.deps.push_back({f(hd[i]), f(hd[i + 1])});
+  }
+  sc.hydro = hpos < hd.size();
+  sc.children.assign(sc.deps.size(), std::vector< size_t >());
+  sc.queue_of.assign(sc.deps.size(), 0);
+  for (size_t i = hpos + 1, t = 0; i < hd.size() && t < sc.deps.size(); ++i, ++t) {
+    const std::string &tok = hd[i];
+    const size_t colon = tok.find(':');
+    if (colon == std::string::npos)
+      return false;
+    const std::string cs = tok.substr(0, colon);
+    sc.queue_of[t] = u64(tok.substr(colon + 1));
+    if (cs != "-") {
+      std::istringstream is(cs);
+      std::string x;
+      while (std::getline(is, x, ','))
+        sc.children[t].push_back(u64(x));
+    }
   }
   auto &last = parts.back();
   if (last.size() != 2)
@@ -172,6 +198,10 @@ struct World {
   std::vector< TaskQueue * > queues;
   AtomicValue< long > *ctr = nullptr;
   long *lfctr = nullptr;
+  // the hydro worker loop's local counter (TaskBasedRadiationHydrodynamicsSimulation.cpp)
+  AtomicValue< uint_fast32_t > number_of_tasks;
+  std::vector< size_t > nrunning; // per thread: popped tasks not yet handed to unlock_dependency
+  int in_seed = 0;                // threads between add_task and pre_increment of the initial loop
 
   // results in completion order (schedule mode: written under the baton)
   std::vector< std::string > log;
@@ -194,7 +224,11 @@ struct World {
         task.set_dependency(&locks[sc.deps[t].first]);
       if (sc.deps[t].second >= 0)
         task.set_extra_dependency(&locks[sc.deps[t].second]);
+      for (size_t c : sc.children[t])
+        task.add_child(c);
+      task.set_number_of_unfinished_parents(0);
     }
+    nrunning.assign(sc.progs.size(), 0);
     for (size_t q = 0; q < sc.nqueues; ++q)
       queues.push_back(new TaskQueue(256));
     ctr = new AtomicValue< long >[sc.nctr + 1];
@@ -221,6 +255,24 @@ struct World {
   long lock_index(ThreadLock *l) const { return l - locks; }
 
   void bad(const std::string &what) { oracle.push_back(what); }
+
+  // counter protocol of the hydro worker loop: number_of_tasks is never 0 while a task is
+  // queued or running (checked at the completion of every call, schedule mode only: all other
+  // threads are parked at a yield, queue bodies are never split by a yield)
+  void check_counter() {
+    if (!sc.hydro || free_mode || in_seed > 0)
+      return;
+    if (number_of_tasks._value.load() != 0)
+      return;
+    size_t queued = 0, running = 0;
+    for (auto q : queues)
+      queued += q->_current_queue_size;
+    for (size_t r : nrunning)
+      running += r;
+    if (queued + running > 0)
+      bad("number_of_tasks-is-zero-while-a-task-is-queued-or-running(" + std::to_string(queued) + "," +
+          std::to_string(running) + ")");
+  }
 
   // ---- bookkeeping helpers; the caller holds om (free mode) or the baton
   void take_slot(int tid, size_t i) {
@@ -282,11 +334,13 @@ static void erase_first(std::vector< size_t > &l, size_t x) {
 
 static void run_program(World &w, int tid) {
   const std::vector< Cmd > &prog = w.sc.progs[tid];
-  std::vector< size_t > owned, held, mytasks; // newest first, like the model
+  std::vector< size_t > owned, held, mytasks, fin; // newest first, like the model
   const std::string T = std::to_string(tid) + ":";
   auto out = [&](const std::string &s) {
     if (!free_mode)
       w.log.push_back(T + s);
+    w.nrunning[tid] = mytasks.size();
+    w.check_counter();
   };
   for (const Cmd &c : prog) {
     const std::string &op = c.op;
@@ -387,6 +441,7 @@ static void run_program(World &w, int tid) {
         w.drop_task_locks(t);
       }
       (*w.tasks)[t].unlock_dependency();
+      fin.insert(fin.begin(), t);
       out("TU" + std::to_string(t));
     } else if (op == "a") {
       {
@@ -457,6 +512,46 @@ static void run_program(World &w, int tid) {
         w.ctr_expect[c.a] += delta;
       }
       out("V" + std::to_string(c.a) + "." + std::to_string(v));
+    } else if (op == "su") {
+      (*w.tasks)[c.a].set_number_of_unfinished_parents(c.b);
+      out("K");
+    } else if (op == "sd") {
+      // initial loop of the hydro step
+      {
+        Guard g(w.om);
+        w.added[c.b]++;
+      }
+      ++w.in_seed;
+      w.queues[c.a]->add_task(c.b);
+      w.number_of_tasks.pre_increment();
+      --w.in_seed;
+      out("SD" + std::to_string(c.a) + "." + std::to_string(c.b));
+    } else if (op == "rl") {
+      if (fin.empty()) {
+        out("K");
+        continue;
+      }
+      // transcription of the worker loop after unlock_dependency()
+      // (TaskBasedRadiationHydrodynamicsSimulation.cpp: children, then pre_decrement)
+      const size_t current_task = fin.front();
+      fin.erase(fin.begin());
+      ThreadSafeVector< Task > &tasks = *w.tasks;
+      const unsigned char numchild = tasks[current_task].get_number_of_children();
+      for (uint_fast8_t i = 0; i < numchild; ++i) {
+        const size_t ichild = tasks[current_task].get_child(i);
+        if (tasks[ichild].decrement_number_of_unfinished_parents() == 0) {
+          {
+            Guard g(w.om);
+            w.added[ichild]++;
+          }
+          w.queues[w.sc.queue_of[ichild]]->add_task(ichild);
+          w.number_of_tasks.pre_increment();
+        }
+      }
+      const uint_fast32_t left = w.number_of_tasks.pre_decrement();
+      out("R" + std::to_string(current_task) + "." + std::to_string((long)(int_fast32_t)left));
+    } else if (op == "ln") {
+      out("N" + std::to_string((long)w.number_of_tasks.value()));
     } else if (op == "lf") {
       LockFree::add(w.lfctr[c.a], c.b);
       Guard g(w.om);
@@ -622,6 +717,12 @@ static void run_scenario(const Scenario &sc, uint64_t lineno) {
       << " tot=" << (long)w.pool->_total_number_taken._value.load() << " flags=" << bits(flags)
       << " cnt=" << comma(cnt) << " locks=" << bits(lk) << " ql=" << bits(ql) << " " << qs
       << " ctr=" << comma(cv);
+    {
+      std::vector< long > unf;
+      for (size_t t = 0; t < sc.deps.size(); ++t)
+        unf.push_back((long)(int8_t)(*w.tasks)[t]._number_of_unfinished_parents._value.load());
+      o << " num=" << (long)(int_fast32_t)w.number_of_tasks._value.load() << " unf=" << comma(unf);
+    }
     if (!stuck.empty())
       o << " STUCK " << comma(stuck);
   }
